@@ -579,7 +579,7 @@ double Find_Root(std::function<double(double)> func, double xLeft, double xRight
 		std::cerr << "Error in libphysica::Find_Root(): Function returns nan at the brackets." << std::endl;
 		std::exit(EXIT_FAILURE);
 	}
-	else if(fLeft * fRight >= 0.0)
+	else if(Sign(fLeft) * Sign(fRight) >= 0)	// Compare the signs, not the product of the values, which underflows (overflows) for tiny (huge) function values.
 	{
 		if(fLeft == 0)
 			return xLeft;
@@ -607,8 +607,10 @@ double Find_Root(std::function<double(double)> func, double xLeft, double xRight
 			double x3 = (x1 + x2) / 2.0;
 
 			double f3 = func(x3);
-			// New point (rounding must not push it out of the bracket)
-			double x4 = x3 + (x3 - x1) * Sign(f1 - f2) * f3 / sqrt(f3 * f3 - f1 * f2);
+			// New point (rounding must not push it out of the bracket). The function values are normalised first, such that their products can neither underflow nor overflow.
+			double f_max = std::max(fabs(f1), std::max(fabs(f2), fabs(f3)));
+			double g1 = f1 / f_max, g2 = f2 / f_max, g3 = f3 / f_max;
+			double x4 = x3 + (x3 - x1) * Sign(g1 - g2) * g3 / sqrt(g3 * g3 - g1 * g2);
 			x4		  = std::max(std::min(x1, x2), std::min(std::max(x1, x2), x4));
 			double f4 = func(x4);
 			if(f4 == 0.0)
